@@ -319,32 +319,6 @@ Section Reduction.
   Qed.
 End Reduction.
 
-(** * 6 (partial). Step functions vs. additive Runge-Kutta form, linear test equation.
-    In the series algebra (F = x., G = y., G_inv exact) the hand-written / low-storage
-    step functions coincide with [ark_step] on the Butcher forms used for the order
-    conditions, and the zero-skipping lazy interpreter coincides with [ark_step]. *)
-Section ArkSeries.
-  Let N := 6%nat.
-  Let vo := @SerOps Q QOps N.
-  Let Fx := @smulx Q QOps N.
-  Let G := @smuly Q QOps.
-  Let Gi := @sinv Q QOps N.
-  Definition ser_ark (t : TQ) : @ser Q :=
-    ark_step (vo := vo) Fx G Gi 1%Q (t_aex t) (t_aim t) (t_bex t) (t_bim t) (sone N).
-End ArkSeries.
-Definition ser_eqb (a b : @ser Q) : bool :=
-  Nat.eqb (length a) (length b) &&
-  forallb (fun p => Nat.eqb (length (fst p)) (length (snd p)) &&
-                    forallb (fun q => Qeq_bool (fst q) (snd q)) (combine (fst p) (snd p))) (combine a b).
-
-Lemma stepfn_is_ark_linear_series :
-  ser_eqb (ser_ark euler_tab) ser_euler = true /\
-  ser_eqb (ser_ark rk2_tab) ser_rk2 = true /\
-  ser_eqb (ser_ark rk3_tab) ser_rk3 = true /\
-  ser_eqb (ser_ark rk4_tab) ser_rk4 = true /\
-  ser_eqb (ser_ark sil3_tab) (some_ser ser_sil3) = true.
-Proof. repeat (match goal with |- _ /\ _ => split end); vm_compute; reflexivity. Qed.
-
 (** * 6. The zero-skipping, lazily evaluating interpreter [imex_step] computes the
     additive Runge-Kutta step [ark_step], for every tableau (all shapes), every
     carrier and module with x + 0 = x and 0.x = 0, every F, G, G_inv. *)
